@@ -32,6 +32,10 @@ func jobsFor(prop, tier string) []*Job {
 			gm = 96
 		}
 		for n := 2; n <= nmax; n++ {
+			gm := gm
+			if n >= 4 {
+				gm = 24 // path count grows with n: smaller weights for 4 servers
+			}
 			add(&Job{Name: fmt.Sprintf("O3-gcd/n=%d,M=%d", n, gm), Pkg: "roundrobin", Harness: "VerifC01Gcd", Params: p("n", n, "M", gm), Unwind: gm + 4, TimeoutS: 120, IncKind: "z3", Solvers: []string{"z3", "cvc5"},
 				Bounds: fmt.Sprintf("real weightGcd/gcd on n=%d servers, weights symbolic in [0,%d] not all zero: result divides every weight and is a multiple of every common divisor in [2,%d]; loops unwound to termination (unwinding bound M+4 never reached)", n, gm, gm)})
 		}
